@@ -409,8 +409,9 @@ def run(ctx, rep):
             t = blk["t"]
             if t["k"] == "switch" and len(t["targets"]) >= 2:
                 covered |= {names[int(v)] for v, _ in t["targets"] if int(v) < len(names)}
-        want = {"Value", "Index", "DotLookup"}
-        rep.ob("C10.guard", "root_ident follows identifiers, index steps and field steps", "ok" if want <= covered else "violated",
+        # every Expr variant that hands on (a view of) one operand without computing a new value: index, field, and `get`
+        want = {"Value", "Index", "DotLookup", "UnaryUnwrap"}
+        rep.ob("C10.guard", "root_ident follows identifiers, index steps, field steps and `get`", "ok" if want <= covered else "violated",
                "variants handled: %s" % sorted(covered), rt.span, fn=rt.path, key="C10.guard|root-ident-shape")
     else:
         rep.ob("C10.guard", "root_ident helper", "undecided", "Expr::root_ident not found (the const test may be written inline)", ft.span, fn=ft.path)
@@ -456,6 +457,26 @@ def run(ctx, rep):
                 ok = False
         v, info = ("ok" if ok else "violated"), "an existing name in the local scope leads to Err"
     rep.ob("C10.guard", "class C: a name already in scope is rejected", v, str(info), pc.span, fn=pc.path, key="C10.guard|class")
+
+    # type alias of a class: registers the alias as the constructor's name
+    ta = F.fn("compiler::ast::r#type::<impl compiler::parser::Parser>::type_alias")
+    if ta is None:
+        cands = [g for g in F.crates["compiler"].fns if g.path.endswith("::type_alias") and "impl compiler::parser::Parser" in g.path]
+        ta = cands[0] if len(cands) == 1 else None
+    if ta is None:
+        raise AnchorMissing("Parser::type_alias")
+    regs = ta.calls_to("compiler::ast::ident::Ident::link_force_no_inherit") + ta.calls_to("compiler::parser::AssocFileData::add_dependency")
+    if not regs:
+        rep.ob("C10.guard", "type T C: registers no variable", "ok", "", ta.span, fn=ta.path, key="C10.guard|type_alias")
+    else:
+        mapped = ta.calls_to("compiler::parser::AssocFileData::has_name_been_mapped") + ta.calls_to("compiler::parser::AssocFileData::get_ident_from_name_local")
+        if not mapped:
+            v, info = "violated", "the alias of a class is registered as a variable without a test for an existing name: `const x = 5; type x A; x = A()` rebinds x"
+        else:
+            bools = [c.dst["l"] for c in mapped if ta.locals[c.dst["l"]] == "bool"]
+            v, info = rules.guarded_by_bool(ta, [c.bb for c in regs], bools, want=False) if bools else ("undecided", "lookup result is not a bool")
+        rep.ob("C10.guard", "type T C (alias of a class, also a constructor name): a name already in use is rejected", v, str(info), regs[0].span, fn=ta.path,
+               key="C10.guard|type_alias")
 
     # ---- 3. read-only creation ---------------------------------------------------------------------------------
     def new_consts(g):
